@@ -31,9 +31,15 @@ Result.events is the ordered list of what the datapath must do:
     ("ctl", frame, max_len)                    packet-in, reason OFPR_ACTION, frame as modified so far
     ("miss", frame)                            table miss of an OFPP_TABLE lookup: packet-in, reason NO_MATCH
 Result.ambiguous is None, or a short string naming the first place where OpenFlow 1.0 leaves the outcome
-open (NORMAL/LOCAL, OFPP_TABLE from a flow entry, nw rewrite on a frame that is not IPv4, tp rewrite on
-something that is not an unfragmented TCP/UDP datagram, ...).  events then holds what was determined
+open (NORMAL/LOCAL, OFPP_TABLE from a flow entry, nw rewrite on the first fragment of a TCP/UDP datagram or on
+IPv4 behind two tags / in SNAP, tp rewrite on a first fragment, ...).  events then holds what was determined
 before that point and nothing after it may be judged byte-wise.
+Result.inapplicable is the list of (len(events), description) for every field-modify action that OpenFlow 1.0
+declares "only applicable to IPv4 / TCP / UDP packets" and that met a frame which is not one (ARP, any other
+EtherType - including 0x9100 / 0x88a8, which 1.0 does not know as VLAN tags -, ICMP for tp rewrites, a later
+fragment).  The specification gives such an action no field it may touch, so the model carries on with the
+frame unchanged; the only other outcome it admits is that the datapath stops executing the list at that
+action.  A judge must therefore accept events complete, or cut at one of these len(events) positions.
 Result.final is the frame after the last judged action, Result.table_lookups counts OFPP_TABLE lookups and
 Result.first_lookup_event is len(events) when the first lookup happened.
 """
@@ -108,6 +114,9 @@ class View(object):
     self.mf = False
     if t != 0x0800:
       self.why = "not-ipv4"
+      o = self.l3
+      if t < 0x0600 and bytes(f[o:o + 8]) == b"\xaa\xaa\x03\x00\x00\x00\x08\x00":
+        self.why = "ipv4-in-snap"            # 1.0 takes dl_type from the SNAP header: open whether it is rewritten
       return
     if self.ntags > max_tags:
       self.why = "ipv4-behind-two-tags"    # OF 1.0 sees dl_type 0x8100 there
@@ -175,65 +184,72 @@ def _push_tag(f, tci):
   return f[:12] + struct.pack("!HH", 0x8100, tci) + f[12:]
 
 
+_OPEN_WHY = ("ipv4-behind-two-tags", "ipv4-in-snap", "ipv4-truncated", "ipv4-malformed")
+
+
 def rewrite(frame, act, udp_zero="keep", tos="dscp"):
-  """Apply one field-modify action.  Returns (new_frame, ambiguity or None)."""
+  """Apply one field-modify action.  Returns (new_frame, ambiguity or None, inapplicable or None):
+  `ambiguity` names an open zone (the frame returned is meaningless then); `inapplicable` says the action is
+  defined only for a kind of packet this frame is not (the frame is returned unchanged)."""
   a = act["a"]
   f = frame
-  tagged = len(f) >= 18 and f[12] == 0x81 and f[13] == 0x00
+  tagged = len(f) >= 18 and f[12] == 0x81 and f[13] == 0x00     # 0x8100 is the only VLAN TPID OpenFlow 1.0 knows
   if a == "set_vlan_vid":
     vid = act["v"] & 0x0fff
     if tagged:
       tci = ((f[14] << 8) | f[15]) & 0xf000 | vid
-      return f[:14] + struct.pack("!H", tci) + f[16:], None
-    return _push_tag(f, vid), None                   # new header, priority zero
+      return f[:14] + struct.pack("!H", tci) + f[16:], None, None
+    return _push_tag(f, vid), None, None             # new header, priority zero
   if a == "set_vlan_pcp":
     pcp = act["v"] & 7
     if tagged:
       tci = ((f[14] << 8) | f[15]) & 0x1fff | (pcp << 13)
-      return f[:14] + struct.pack("!H", tci) + f[16:], None
-    return _push_tag(f, pcp << 13), None             # new header, VLAN id zero
+      return f[:14] + struct.pack("!H", tci) + f[16:], None, None
+    return _push_tag(f, pcp << 13), None, None       # new header, VLAN id zero
   if a == "strip_vlan":
     if tagged:
-      return f[:12] + f[16:], None
-    return f, None
+      return f[:12] + f[16:], None, None
+    return f, None, None
   if a == "set_dl_src":
-    return f[:6] + bytes(act["v"]) + f[12:], None
+    return f[:6] + bytes(act["v"]) + f[12:], None, None
   if a == "set_dl_dst":
-    return bytes(act["v"]) + f[6:], None
+    return bytes(act["v"]) + f[6:], None, None
 
   v = View(f)
+  if a in ("set_nw_src", "set_nw_dst", "set_nw_tos", "set_tp_src", "set_tp_dst") and not v.ipv4:
+    if v.why in _OPEN_WHY:
+      return f, "%s on %s" % (a, v.why), None
+    return f, None, "%s on %s" % (a, v.why)
   if a in ("set_nw_src", "set_nw_dst", "set_nw_tos"):
-    if not v.ipv4:
-      return f, "%s on %s" % (a, v.why)
     b = bytearray(f)
     if a == "set_nw_tos":
       old = b[v.l3 + 1]
       b[v.l3 + 1] = ((old & 0x03) | (act["v"] & 0xfc)) if tos == "dscp" else (act["v"] & 0xff)
       _fix_ip_checksum(b, v)
-      return bytes(b), None
+      return bytes(b), None, None
     if v.proto in (6, 17) and v.mf and v.fragoff == 0:
       # first fragment: the transport checksum covers data that is not in this frame
-      return f, "%s on the first fragment of a TCP/UDP datagram" % a
+      return f, "%s on the first fragment of a TCP/UDP datagram" % a, None
     o = v.l3 + (12 if a == "set_nw_src" else 16)
     b[o:o + 4] = struct.pack("!L", act["v"] & 0xffffffff)
     _fix_ip_checksum(b, v)
     if v.fragoff == 0:
       _fix_l4_checksum(b, v, udp_zero)
-    return bytes(b), None
+    return bytes(b), None, None
   if a in ("set_tp_src", "set_tp_dst"):
-    if not v.ipv4:
-      return f, "%s on %s" % (a, v.why)
     if v.proto not in (6, 17):
-      return f, "%s on ip protocol %d" % (a, v.proto)
-    if v.fragoff != 0 or v.mf:
-      return f, "%s on a fragment" % a
+      return f, None, "%s on ip protocol %d" % (a, v.proto)
+    if v.fragoff != 0:
+      return f, None, "%s on a later fragment" % a           # no transport header in this frame
+    if v.mf:
+      return f, "%s on a first fragment" % a, None
     if v.l4len < (20 if v.proto == 6 else 8):
-      return f, "%s on a truncated transport header" % a
+      return f, "%s on a truncated transport header" % a, None
     b = bytearray(f)
     o = v.l4 + (0 if a == "set_tp_src" else 2)
     b[o:o + 2] = struct.pack("!H", act["v"] & 0xffff)
     _fix_l4_checksum(b, v, udp_zero)
-    return bytes(b), None
+    return bytes(b), None, None
   raise ValueError("unknown action %r" % (a,))
 
 
@@ -300,7 +316,7 @@ def expand_output(port, in_port, port_state):
 
 
 class Result(object):
-  __slots__ = ("events", "ambiguous", "final", "table_lookups", "first_lookup_event")
+  __slots__ = ("events", "ambiguous", "final", "table_lookups", "first_lookup_event", "inapplicable")
 
   def __init__(self):
     self.events = []
@@ -308,6 +324,7 @@ class Result(object):
     self.final = None
     self.table_lookups = 0
     self.first_lookup_event = None      # len(events) at the moment of the first OFPP_TABLE lookup
+    self.inapplicable = []              # (len(events), description) per field-modify action that did not apply
 
   def physical(self):
     """All (port, frame) expected on physical ports, flattened in list order."""
@@ -365,10 +382,12 @@ def apply(frame, actions, in_port, port_state, udp_zero="keep", tos="dscp", from
         res.ambiguous = x[1]
         break
     else:
-      f, amb = rewrite(f, act, udp_zero=udp_zero, tos=tos)
+      f, amb, inapp = rewrite(f, act, udp_zero=udp_zero, tos=tos)
       if amb is not None:
         res.ambiguous = amb
         break
+      if inapp is not None:
+        res.inapplicable.append((len(res.events), inapp))
   if _res is None or res.ambiguous is None:
     res.final = f
   return res
